@@ -2,6 +2,7 @@ import Model.C04.Domain
 import Model.C04.Verdict
 import Model.C04.Verdict2
 import Model.C04.Derived
+import Model.C04.Refusal
 import Proofs.C04.Switch
 import Model.C04.Switch
 /-!
@@ -23,6 +24,11 @@ arms are tied to M and to each other by the dual-arm streams of harness/c04.py. 
   point's documented contract (Model/C04/Derived.lean) and proved equal to the Python arm's table
   (`*_bind_derived_agrees`): a widened guard or a dropped fact breaks the equality.  `_tweak_add_var` is derived the
   same way but its agreement holds for ANY guard (`tweak_add_any_guard_agrees`): the handler, not the guard, carries it.
+* **T4** the dispatch inventory and exception classes.  `consulting` (generated) lists every function of the installed
+  package whose body consults the dispatch; `inventory_modelled` / `inventory_sites_are_the_table` say each is a site of
+  the generated table, the inside of a delegation or the dispatch core.  `refusal_class_agrees`: per site and per way of
+  being outside the C entry point's domain, the class the bindings arm answers — computed by unwinding the GENERATED
+  handlers (`SiteId.handlers`) — equals the class the Python arm answers (hand-written column, tied by `refusal.class`).
 * **T3** the switch writes the flag and nothing else: the code fact is `set_serving_writes_only_the_flag` (names read off
   the AST); lemmas about the hand-written state-machine model are in Proofs/C04/Switch.lean and are not counted here.
 -/
@@ -111,12 +117,13 @@ theorem pubkey_bind_derived_agrees (q : Scalar) : PubKey.bindDerived q = PubKey.
   cases q <;> decide
 theorem dh_bind_derived_agrees (d : Scalar) (q : Point) : Dh.bindDerived d q = Dh.py d q ∧ Dh.bind d q = Dh.bindDerived d q := by
   cases d <;> cases q <;> decide
-theorem tweak_add_bind_derived_agrees (t : Tweak) (p : Point) :
-    TweakAdd.bindDerived t p = TweakAdd.py t p ∧ TweakAdd.bind t p = TweakAdd.bindDerived t p := by
-  cases t <;> cases p <;> decide
 /-- NOT an obligation on the guard: `_tweak_add_var`'s call stands inside `suppress(ValueError)`, so the bindings arm
-agrees with the Python arm for EVERY dispatch guard — widening it changes speed, not answers.  (What it does depend on
-is the established `require_on_curve`: see `factsOf` in Model/C04/Derived.lean.) -/
+agrees with the Python arm for EVERY dispatch guard — widening it changes speed, not answers (the former
+`tweak_add_bind_derived_agrees` was the instance `g :=` the generated guard of this statement and is no longer counted:
+THREE tables are derived from the guards, not four).  What the statement does depend on is the established
+`require_on_curve` (`factsOf` reads it off the generated `.established`: if `_tweak_add_var` stops calling it the atom is
+false and the valid-point classes answer `errForeign`).  A WIDENED `_tweak_add_var` guard is caught elsewhere: the site is
+not in `handlerNeeded`, so `domain_from_guard_alone` demands the domain of its guard and established facts alone. -/
 theorem tweak_add_any_guard_agrees (g : Atoms → Bool) (t : Tweak) (p : Point) :
     TweakAdd.bindWith g t p = TweakAdd.py t p := by
   cases t <;> cases p <;>
@@ -211,6 +218,45 @@ theorem sp_scan_empty_agrees : SpScan.py .none_ = SpScan.bind .none_ := rfl
 example : Mult.py .inRange .valid = .value ∧ Mult.bind .negative .offCurve = .errValue := by decide
 example : DsaAssert.py .len32 .valid .highS = .value ∧ DsaAssert.bind .len32 .valid .wrong = .errRuntime := by decide
 example : SpScan.py .notX = .value ∧ SpScan.bind .notX = .errValue := by decide
+
+/-! ## T4 — the inventory of dispatch-consulting functions, and exception-class equality per site -/
+
+/-- every function of the installed package whose body consults the dispatch (the predicate, the flag, a name imported
+from `btclib._libsecp256k1`, a private delegate, an attribute holding a bindings object — enumerated by AST over EVERY
+module, tools/specs/backend.py `consulting_functions`) is modelled: a delegation site of the generated table, the inside
+of a delegation, or the dispatch core.  (The translator also refuses to generate when one is not; this is the same fact
+as an obligation over what it generated.) -/
+theorem inventory_modelled :
+    consulting.all (fun f => f.2 == "site" || f.2 == "inside" || f.2 == "core") = true := by decide +kernel
+
+/-- the functions marked `site` are exactly the functions the generated guards were read from -/
+theorem inventory_sites_are_the_table :
+    (∀ s ∈ SiteId.all, consulting.contains (s.source.1, "site") = true) ∧
+    (∀ f ∈ consulting, f.2 = "site" → SiteId.all.any (fun s => s.source.1 == f.1) = true) := by decide +kernel
+
+/-- exception-class equality per site: at every site, for every way its input can be outside the C entry point's domain
+while passing the generated guard (and for every refusal of a RESULT: zero / infinity / no point), what the bindings arm
+answers — computed from the GENERATED handlers by unwinding them — is the class the Python arm answers on that class of
+input.  One exception, the recorded finding `sp.scan.offcurve_backend_divergence`. -/
+theorem refusal_class_agrees :
+    ∀ e ∈ refusalTable, e.isSpScanNotX = false → refusalOutcome e.site e.py = e.py := by decide +kernel
+/-- … and on that one the handlers give `BTClibValueError` where the Python arm answers a value -/
+theorem refusal_sp_scan_diverges :
+    ∀ e ∈ refusalTable, e.isSpScanNotX = true → refusalOutcome e.site e.py = .errValue ∧ e.py = .value := by decide +kernel
+/-- the table misses nothing T1 knows of: every (handler-needed site, out-of-domain vector the guard lets through) has a row -/
+theorem refusal_table_complete :
+    ∀ s ∈ handlerNeeded, ∀ i ∈ List.range outsideNames.length,
+      siteStrict s (outsideDomain.getD i (allTrueBut [])) = false →
+      refusalTable.any (fun e => e.site == s && e.atom == outsideNames.getD i "") = true := by decide +kernel
+/-- a site whose refusal is NOT handled answers with a foreign exception: that is why T1 demands the domain of its guard -/
+theorem unhandled_refusal_is_foreign (s : SiteId) (pyc : Outcome) (h : s.catches = false) :
+    refusalOutcome s pyc = .errForeign := by
+  revert h
+  cases s <;> simp [refusalOutcome, SiteId.handlers, SiteId.catches, escape] <;> unfold_sites <;> simp
+
+example : refusalOutcome .dsa_recover_pub_keys__libsecp256k1_recover_point .value = .value
+    ∧ refusalOutcome .commit_nonce__prvkey_tweak_add .errRuntime = .errRuntime
+    ∧ refusalOutcome .engine_dsa_verify__libsecp256k1_dsa_verify .false_ = .false_ := by decide
 
 /-! ## T3 — the switch writes the flag and nothing else -/
 
